@@ -45,8 +45,10 @@ def def_shapes(K):
 
 
 def instances(tier):
+    from harness import c06b
+
     b = BOUNDS[tier]
-    out = []
+    out = list(c06b.instances(tier))
     for (k, nd, star, kw) in def_shapes(b["K"]):
         for kind in ("norm", "remove", "add", "inline", "reorder"):
             mk = 1 if (kind == "add" and k >= 2) or k >= 3 else b["max_kw"]
@@ -211,4 +213,8 @@ def make_run(p):
 
 
 def run_instance(name, params, seconds):
+    if params.get("kind") == "pipeline":
+        from harness import c06b
+
+        return h.explore_instance(c06b.make_run(params), seconds)
     return h.explore_instance(make_run(params), seconds)
